@@ -393,12 +393,18 @@ def validate(pid, rep, seed):
         results = list(ex.map(_run_one, [(pid, o) for o in ops]))
     caught = app = bs = ba = 0
     problems = []
+    unanalysable = []
     detail = []
     for o, status, msg, rules in results:
         detail.append({"operator": o["name"], "expect": o["expect"], "outcome": status, "rules": rules, "note": msg})
         if status == "inapplicable":
             continue
         if o["expect"] == "fire":
+            if status == "analysis-error":
+                # the variant (this tree + the seeded break) cannot be modelled: no verdict about it either way.  On the pinned
+                # tree every operator is analysable; on a refactored tree an operator's edit may meet code it was not written for.
+                unanalysable.append(o["name"])
+                continue
             app += 1
             ok = status == "fired" and (not o["rules"] or any(any(r == x or r.startswith(x) for x in o["rules"]) for r in rules))
             if ok:
@@ -411,6 +417,10 @@ def validate(pid, rep, seed):
                 bs += 1
             else:
                 problems.append("benign twin '%s' raised an alarm (%s %s %s)" % (o["name"], status, rules, msg))
+    if unanalysable and not caught:
+        problems.append("no seeded break could be demonstrated: %d operator variant(s) are not analysable (%s) and none fired"
+                        % (len(unanalysable), ", ".join(unanalysable[:4])))
+    rep.analysed["selfval_unanalysable_variants"] = unanalysable
     rep.analysed["selfval"] = {"seeded_caught": caught, "seeded_applicable": app, "benign_silent": bs, "benign_applicable": ba,
                                "operators": detail, "wall_s": round(time.time() - t0, 1)}
     rep.ob("SELFVAL", not problems, None, None, loc="selftest/operators.py",
